@@ -503,7 +503,12 @@ class Interp(object):
                         for cs in conds_list:
                             if not all(decided.get(vkey(t_), tr_) == tr_ for t_, tr_ in cs):
                                 continue
-                            cnf2 = cnf + tuple(c_ for c_ in cs if vkey(c_[0]) not in decided)
+                            # decisions already on the path may mention the callee's value too (`if helper(x) < 0:`): under this
+                            # alternative they are decisions about that alternative
+                            sub_ = lambda x, a=a, alt=alt: alt if x == a else None
+                            cnf_here = tuple((_subst_val(t_, sub_) if isinstance(t_, Rat) and t_.has_atom(lambda q, a=a: q == a) else t_, tr_)
+                                             for t_, tr_ in cnf)
+                            cnf2 = cnf_here + tuple(c_ for c_ in cs if vkey(c_[0]) not in decided)
                             conds2 = conds + tuple("callee: %s%s" % ("" if tr else "not ", str(_vk(t))[:80]) for t, tr in cs
                                                    if vkey(t) not in decided)
                             v2 = _subst_val(v, lambda x, a=a, alt=alt: alt if x == a else None)
